@@ -201,6 +201,39 @@ def load_prop(prop_id):
 _W = {}
 
 
+# ---- optional line coverage of the code under test (tools/linecov.py): which lines of /repo do the cases of a check execute at all?
+# A line no case executes cannot be observed by any oracle.  Uses sys.monitoring (each location reports once, then is disabled).
+def linecov_start():
+    d = os.environ.get('VERIF_LINECOV')
+    if not d or not hasattr(sys, 'monitoring'):
+        return
+    mon = sys.monitoring
+    tool = mon.COVERAGE_ID
+    try:
+        mon.use_tool_id(tool, 'verif-linecov')
+    except ValueError:
+        pass
+    hits = _W.setdefault('cov', set())
+    prefix = REPO + os.sep
+
+    def on_line(code, line):
+        fn = code.co_filename
+        if fn.startswith(prefix):
+            hits.add((fn[len(prefix):], line))
+        return mon.DISABLE
+    mon.register_callback(tool, mon.events.LINE, on_line)
+    mon.set_events(tool, mon.events.LINE)
+
+
+def linecov_dump(prop_id, tag):
+    d = os.environ.get('VERIF_LINECOV')
+    if not d or 'cov' not in _W:
+        return
+    os.makedirs(d, exist_ok=True)
+    with open(os.path.join(d, f'{prop_id}-{os.getpid()}-{tag}.json'), 'w') as f:
+        json.dump(sorted(_W['cov']), f)
+
+
 def _worker_init(prop_id, tier, seed):
     devnull = os.open(os.devnull, os.O_WRONLY)
     os.dup2(devnull, 1)
@@ -240,7 +273,9 @@ def _worker_run(i_shard):
 
 
 def _worker_run_lane(lane):
-    return [_worker_run(x) for x in lane]
+    out = [_worker_run(x) for x in lane]
+    linecov_dump(_W['args'][0], f'lane{lane[0][0]}' if lane else 'lane')
+    return out
 
 
 LANES = 64
@@ -347,6 +382,7 @@ def run_check(prop_id, tier, workers=16, confirm=True, write_evidence=True):
     mod = load_prop(prop_id)
     prop_id = mod.ID
     silent = io.StringIO()
+    linecov_start()
     with contextlib.redirect_stdout(silent):
         if hasattr(mod, 'setup'):
             mod.setup(tier)
@@ -423,6 +459,7 @@ def run_check(prop_id, tier, workers=16, confirm=True, write_evidence=True):
     for k in list(by_key):
         replays[k] = write_replay(prop_id, by_key[k], seed)
 
+    unconfirmed = set()
     if new_keys and confirm:
         # a violation is only reported if it reproduces, identically, twice, in a fresh interpreter: first the recorded case alone,
         # and if that does not show it, the case after the preceding cases of its shard (state kept between calls)
@@ -452,16 +489,22 @@ def run_check(prop_id, tier, workers=16, confirm=True, write_evidence=True):
             if not ok:
                 print(f'HARNESS-ERROR nondeterminism: replay of {replays[k]} did not reproduce '
                       f'(rc {a[0]}/{bb[0]}, same_obs={a[1] == bb[1]}) {a[2][-300:]}')
+                unconfirmed.add(k)
                 rc = 2
+        if all(k in unconfirmed for k in new_keys[:6]):
+            unconfirmed.update(new_keys)        # nothing reproduced: the keys beyond the first six are not trusted either
     for k in known_hit:
         lines.append(f'KNOWN-FINDING: property={prop_id} {recorded[k]["what"]} [witness_key={k} cases={tot.viol_keys[k]}]')
-    if rc != 2:
-        for k in new_keys:
-            v = by_key[k]
-            lines.append(f'VIOLATION property={prop_id} replay={replays[k]}')
-            lines.append(f'  clause={v["clause"]} witness_key={k} cases={tot.viol_keys[k]} :: {v["detail"][:400]}')
-        if new_keys:
-            rc = 1
+    # A violation that was reproduced twice in a fresh interpreter stands on its own: it is reported (exit 1) even if OTHER cases of the
+    # run ended in a harness error or did not reproduce - those are printed as HARNESS-ERROR lines above and are no verdict.
+    reported = [k for k in new_keys if k not in unconfirmed]
+    for k in reported:
+        v = by_key[k]
+        lines.append(f'VIOLATION property={prop_id} replay={replays[k]}')
+        lines.append(f'  clause={v["clause"]} witness_key={k} cases={tot.viol_keys[k]} :: {v["detail"][:400]}')
+    if reported:
+        rc = 1
+    new_keys = reported if rc == 1 else new_keys
 
     # ---- vacuity guards
     min_nt = desc.get('min_nontrivial', 2)
